@@ -603,6 +603,163 @@ func (g *gen) structValues(d *Decl, nRandom int) []*SVal {
 	return res
 }
 
+// famShapes (C09): declaration shapes — struct-level vs per-field placement of the same markers,
+// multi-name fields, grouped type declarations mixing struct and non-struct specs (with markers on the
+// group and on a spec), embedded fields, many fields, fields before/after nested structs.
+func (g *gen) famShapes(id string, count, maxFields int) []*Scenario {
+	var out []*Scenario
+	guarded := []string{"required", "minlength", "maxlength", "length", "gt", "gte", "lt", "lte", "minitems", "maxitems", "email", "url", "uuid", "alpha", "numeric", "ipv4", "ipv6"}
+	tmMarker := func(r string) Marker {
+		switch r {
+		case "gt", "lt", "gte", "lte":
+			return Marker{ID: r, Expr: []string{"0", "1", "5", "100"}[g.rng.Intn(4)], HasExpr: true}
+		}
+		return g.marker(r, stringT)
+	}
+	flatType := func() *TypeX {
+		for {
+			t := g.anyType()
+			u := t.Underlying()
+			if strings.HasPrefix(u.Basic, "Complex") || (t.Kind == "named" && u.Basic == "String") {
+				continue // D18 / D19: struct-level ordered / string rules would not compile
+			}
+			return t
+		}
+	}
+	for s := 0; s < count; s++ {
+		sc := newScenario(fmt.Sprintf("%s%03d", id, s))
+		g.sc = sc
+		switch s % 5 {
+		case 0, 1: // placement: the same markers at struct level (A) and pushed down to every applicable field (B)
+			nf := 2 + g.rng.Intn(maxFields)
+			var types []*TypeX
+			for i := 0; i < nf; i++ {
+				types = append(types, flatType())
+			}
+			g.rng.Shuffle(len(guarded), func(i, j int) { guarded[i], guarded[j] = guarded[j], guarded[i] })
+			var tms []Marker
+			for _, r := range guarded[:1+g.rng.Intn(3)] {
+				tms = append(tms, tmMarker(r))
+			}
+			a := &Decl{Name: "A", Markers: tms}
+			b := &Decl{Name: "B"}
+			for i, t := range types {
+				a.Fields = append(a.Fields, &Field{Names: []string{fmt.Sprintf("F%d", i)}, Type: t})
+				fb := &Field{Names: []string{fmt.Sprintf("F%d", i)}, Type: t}
+				fa := a.Fields[len(a.Fields)-1]
+				// sometimes a field of A repeats a struct-level marker verbatim (redundant but legal: the rule is
+				// then written twice and reported twice) — the fields after it must keep the struct-level rule
+				if g.rng.Intn(4) == 0 {
+					for _, m := range tms {
+						for _, r := range rulesFor(t) {
+							if r == m.ID && g.rng.Intn(2) == 0 {
+								fa.Markers = append(fa.Markers, m)
+								fb.Markers = append(fb.Markers, m)
+							}
+						}
+					}
+				}
+				for _, m := range tms {
+					for _, r := range rulesFor(t) {
+						if r == m.ID {
+							fb.Markers = append(fb.Markers, m)
+						}
+					}
+				}
+				b.Fields = append(b.Fields, fb)
+			}
+			sc.Decls = []*Decl{a, b}
+			va := g.structValues(a, 10)
+			sc.Values["A"] = va
+			sc.Values["B"] = va // identical values for both placements
+		case 2: // multi-name fields and fields around nested structs
+			d := &Decl{Name: "M"}
+			fi := 0
+			for i := 0; i < 2+g.rng.Intn(4); i++ {
+				t := g.anyType()
+				fi++
+				names := []string{fmt.Sprintf("A%d", fi), fmt.Sprintf("B%d", fi)}
+				if g.rng.Intn(3) == 0 {
+					names = append(names, fmt.Sprintf("C%d", fi))
+				}
+				if g.rng.Intn(3) == 0 {
+					names = names[:1]
+				}
+				d.Fields = append(d.Fields, &Field{Names: names, Type: t, Markers: g.fieldMarkers(t, 1+g.rng.Intn(3))})
+				if g.rng.Intn(3) == 0 {
+					fi++
+					t2 := g.anyType()
+					inner := &Field{Names: []string{fmt.Sprintf("X%d", fi), fmt.Sprintf("Y%d", fi)}, Type: t2, Markers: g.fieldMarkers(t2, 1+g.rng.Intn(2))}
+					// (a nested struct declared with two names `N, O struct{X}` always collides on the legacy alias
+					//  Err<Struct>X…: known finding D9, replayed separately — single name here)
+					nn := []string{fmt.Sprintf("N%d", fi)}
+					d.Fields = append(d.Fields, &Field{Names: nn, Nested: []*Field{inner}})
+				}
+			}
+			sc.Decls = []*Decl{d}
+			sc.Values["M"] = g.structValues(d, 10)
+		case 3: // grouped declarations: non-struct specs before/between structs, markers on the group and on a spec
+			grp := "g1"
+			var gdoc []Marker
+			if g.rng.Intn(2) == 0 {
+				gdoc = []Marker{tmMarker([]string{"required", "minlength", "gt"}[g.rng.Intn(3)])}
+			}
+			for di := 0; di < 2+g.rng.Intn(3); di++ {
+				d := &Decl{Name: fmt.Sprintf("G%d", di), Group: grp, GroupDoc: gdoc}
+				if g.rng.Intn(2) == 0 {
+					d.PreSpec = fmt.Sprintf("K%d%d int", s, di)
+				}
+				if g.rng.Intn(3) == 0 {
+					r := guarded[g.rng.Intn(len(guarded))]
+					dup := false
+					for _, m := range gdoc {
+						if m.ID == r {
+							dup = true
+						}
+					}
+					if !dup {
+						d.Markers = []Marker{tmMarker(r)}
+					}
+				}
+				for i := 0; i < 1+g.rng.Intn(3); i++ {
+					t := flatType()
+					var fm []Marker
+					for _, m := range g.fieldMarkers(t, g.rng.Intn(3)) {
+						dup := false
+						for _, tm := range append(append([]Marker{}, gdoc...), d.Markers...) {
+							if tm.ID == m.ID {
+								dup = true
+							}
+						}
+						if !dup {
+							fm = append(fm, m)
+						}
+					}
+					d.Fields = append(d.Fields, &Field{Names: []string{fmt.Sprintf("F%d", i)}, Type: t, Markers: fm})
+				}
+				sc.Decls = append(sc.Decls, d)
+				sc.Values[d.Name] = g.structValues(d, 8)
+			}
+		case 4: // many fields; embedded fields of named non-string basic types
+			d := &Decl{Name: "W"}
+			n := maxFields * 4
+			for i := 0; i < n; i++ {
+				t := g.anyType()
+				d.Fields = append(d.Fields, &Field{Names: []string{fmt.Sprintf("F%d", i)}, Type: t, Markers: g.fieldMarkers(t, 1+g.rng.Intn(4))})
+			}
+			for e := 0; e < 2; e++ {
+				base := g.pick(intKinds)
+				nt := g.namedOver(base)
+				d.Fields = append(d.Fields, &Field{Names: []string{nt.Src}, Type: nt, Embed: true, Markers: g.fieldMarkers(nt, 1+g.rng.Intn(2))})
+			}
+			sc.Decls = []*Decl{d}
+			sc.Values["W"] = g.structValues(d, 6)
+		}
+		out = append(out, sc)
+	}
+	return out
+}
+
 // ---------------------------------------------------------------- scenario families
 
 func newScenario(id string) *Scenario { return &Scenario{ID: id, Values: map[string][]*SVal{}} }
@@ -671,6 +828,48 @@ func (g *gen) famMatrix(id string, rules []string, types []*TypeX, perPkg int, w
 		}
 	}
 	flush()
+	return out
+}
+
+// famCombo: a string field carrying one marker of `primary` COMBINED with 1..3 other string markers
+// (required, length family, format family), at top level or nested, field-level or struct-level.
+func (g *gen) famCombo(id string, count int, primary []string) []*Scenario {
+	var out []*Scenario
+	others := []string{"required", "minlength", "maxlength", "length", "email", "url", "uuid", "alpha", "numeric", "ipv4", "ipv6"}
+	for s := 0; s < count; s++ {
+		sc := newScenario(fmt.Sprintf("%s%03d", id, s))
+		g.sc = sc
+		d := &Decl{Name: "K"}
+		ms := []Marker{g.marker(primary[g.rng.Intn(len(primary))], stringT)}
+		g.rng.Shuffle(len(others), func(i, j int) { others[i], others[j] = others[j], others[i] })
+		for _, r := range others[:1+g.rng.Intn(3)] {
+			dup := false
+			for _, m := range ms {
+				if m.ID == r {
+					dup = true
+				}
+			}
+			if !dup {
+				ms = append(ms, g.marker(r, stringT))
+			}
+		}
+		f := &Field{Names: []string{"F"}, Type: stringT}
+		switch g.rng.Intn(3) {
+		case 0: // all on the field
+			f.Markers = ms
+			d.Fields = []*Field{f}
+		case 1: // nested
+			f.Markers = ms
+			d.Fields = []*Field{{Names: []string{"In"}, Nested: []*Field{f}}}
+		default: // split between struct level and field level
+			d.Markers = ms[:1]
+			f.Markers = ms[1:]
+			d.Fields = []*Field{f, {Names: []string{"Other"}, Type: g.pick(intKinds)}}
+		}
+		sc.Decls = []*Decl{d}
+		sc.Values["K"] = g.structValues(d, 4)
+		out = append(out, sc)
+	}
 	return out
 }
 
